@@ -38,6 +38,7 @@ fn profile_of(s: &str) -> arena::Profile {
         "uniform" => Uniform,
         "panics" => Panics,
         "apisweep" => ApiSweep,
+        "deep" => Deep,
         _ => {
             eprintln!("MACHINERY: unknown profile {s}");
             std::process::exit(2)
